@@ -9,14 +9,35 @@
     }
     pub struct CancellationToken {}
     impl CancellationToken {
+        /// C17: whether shutdown had been requested (the token cancelled) when poll number `e` of a `select!` took place
+        pub uninterp spec fn requested(&self, e: int) -> bool;
         #[verifier::external_body] pub fn new() -> CancellationToken { unimplemented!() }
         #[verifier::external_body] pub fn cancel(&self) { unimplemented!() }
         #[verifier::external_body] pub fn cancelled(&self) { unimplemented!() }
+        /// R8b: `cancelled()` is ready exactly when the token is cancelled
+        #[verifier::external_body] pub fn vx_ready_cancelled(&self, e: Ghost<int>) -> (g: Ghost<bool>) ensures g@ == self.requested(e@) { unimplemented!() }
     }
+    impl TcpListener {
+        /// R8b: `accept()` is ready when a connection is pending (unconstrained)
+        #[verifier::external_body] pub fn vx_ready_accept(&self, e: Ghost<int>) -> (g: Ghost<bool>) { unimplemented!() }
+    }
+    /// R8b: one poll of a `select!` (tokio's documented semantics): a fresh poll number; the arm that runs was ready, and with
+    /// `biased;` no arm before it in source order was
+    #[verifier::external_body] pub fn vx_select_enter() -> (e: Ghost<int>) { unimplemented!() }
+    #[verifier::external_body] pub fn vx_select_pick2(biased: bool, r0: Ghost<bool>, r1: Ghost<bool>) -> (k: usize)
+        ensures k < 2, k == 0 ==> r0@, k == 1 ==> r1@, (biased && k == 1) ==> !r0@,
+    { unimplemented!() }
     impl Clone for CancellationToken { #[verifier::external_body] fn clone(&self) -> CancellationToken { unimplemented!() } }
     impl TaskTracker {
-        #[verifier::external_body] pub fn close(&self) -> bool { unimplemented!() }
-        #[verifier::external_body] pub fn wait(&self) { unimplemented!() }
+        /// tokio_util's TaskTracker: `wait()` completes once the tracker is closed and every tracked task has finished
+        pub uninterp spec fn vx_closed(&self) -> bool;
+        pub uninterp spec fn vx_drained(&self) -> bool;
+        #[verifier::external_body] pub fn close(&self) -> bool ensures self.vx_closed() { unimplemented!() }
+        #[verifier::external_body] pub fn wait(&self)
+            requires
+                self.vx_closed(), // @cl:C17.accept_loop.tracker_closed_before_it_is_awaited
+            ensures self.vx_drained(),
+        { unimplemented!() }
     }
     pub mod app {
         use super::*;
